@@ -457,4 +457,12 @@ def r20_6_shared(repo: Repo, rep: Report):
     r09_1_snapshot_restore(repo, rep)
 
 
-RULES = [r20_6_shared, r20_0_no_dynamic_features, r20_1_fork_copies, r20_2_inactive_paths, r20_3_fresh_per_test, r20_4_process_wide_state, r20_5_uid_nominal]
+def r20_7_shared(repo: Repo, rep: Report):
+    """the configuration of one test must not leak into the next: per-function layers are built from the contract's
+    configuration, never from the previous function's (shared with C18 R18.4)"""
+    from hsa.rules.c18 import r18_4_scoping
+
+    r18_4_scoping(repo, rep)
+
+
+RULES = [r20_7_shared, r20_6_shared, r20_0_no_dynamic_features, r20_1_fork_copies, r20_2_inactive_paths, r20_3_fresh_per_test, r20_4_process_wide_state, r20_5_uid_nominal]
